@@ -392,3 +392,19 @@ package ro
 //@   props C10
 //@   modular
 //@   ensures [never-nil] result != nil
+
+// Initial states of the subjects (C10: the sequential definition starts from these).
+
+//@ func NewBehaviorSubject
+//@   props C10 C09
+//@   binds initial
+//@   ensures [starts-open-with-the-initial-value-and-a-context|C10,C09] result.status == 0 && result.last.B == initial && result.last.A != nil && result.observerIndex == 0
+
+//@ func NewReplaySubject
+//@   props C10 C11
+//@   binds bufferSize
+//@   ensures [starts-open-and-empty-with-the-configured-size|C10,C11] result.status == 0 && len(result.values) == 0 && result.bufferSize == bufferSize && result.observerIndex == 0
+
+//@ func NewAsyncSubject
+//@   props C10
+//@   ensures [starts-open-without-a-value|C10] result.status == 0 && result.hasValue == false && result.observerIndex == 0
